@@ -50,6 +50,12 @@ def program_list(tier):
     ]
     for lhs, ctx, leaves in extra:
         out.append(programs.Program([programs.Eq(programs.Term(lhs), ctx, [programs.Term(n, 'v', o) for n, o in leaves])], 'extra'))
+    # a named period (label 0 sits at position 2 of every span used here) mixed with lags/leads of the same variable, either order
+    LAB = ('label', '`0`')
+    for ctx, leaves in [('PH0 / PH1', [('C', -1), ('C', LAB)]), ('PH0 / PH1', [('C', LAB), ('C', -1)]), ('PH0 + PH1', [('C', 2), ('C', LAB)]),
+                        ('PH0 + PH1', [('C', LAB), ('C', 2)]), ('PH0 + PH1 - PH2', [('C', -2), ('C', LAB), ('C', 1)]), ('PH0 * PH1', [('X', LAB), ('Y', -1)]),
+                        ('PH0 + PH1', [('Y', -1), ('Y', LAB)]), ('PH0', [('C', LAB)])]:
+        out.append(programs.Program([programs.Eq(programs.Term('Y'), ctx, [programs.Term(n, 'v', o) for n, o in leaves])], 'label-mix'))
     for p in programs.s4(6 if tier == 'quick' else None):
         if p.consistent() and p.script() not in seen:
             seen.add(p.script())
@@ -181,13 +187,18 @@ def run_case(case, p=None, Model=None):
         return out, 'infeasible'
     # 4. reads address exactly pos+k inside the span
     allowed_reads = set()
+    label_reads = set()
     for e in p.eqs:
         for term in e.terms_in_text_order()[1:]:
             if isinstance(term.off, int):
                 allowed_reads.add((term.name, term.off))
+            else:
+                label_reads.add((term.name, 2))  # the label 0 is at position 2 of the span
     for k, nm, r in log:
         if nm not in Model.NAMES:
             continue
+        if k == 'r' and (nm, r) in label_reads:
+            continue  # a read at a named period addresses that period, wherever t is
         off = r - t
         if not (0 <= pos + off < n):
             out.append(('read-wrapped', 'inside the span', [k, nm, r, t], 'an access while solving a feasible period addressed a period outside the span'))
